@@ -130,12 +130,16 @@ func TestSequential(t *testing.T) {
 		}
 		// entries without any message (and without fields of their own) take a slot like every other entry
 		blank := map[int]bool{}
-		bigEntries := 0
+		odd := map[int]string{} // entries whose message is not just their number
+		bigEntries, lateWrites := 0, 0
 		expect := func(total int) []string {
 			out := expect(total)
 			for i := range out {
 				if blank[total-i] {
 					out[i] = ""
+				}
+				if m, ok := odd[total-i]; ok {
+					out[i] = m
 				}
 			}
 			return out
@@ -189,7 +193,7 @@ func TestSequential(t *testing.T) {
 				}
 				if !forceRead && gen.Chance(rt, 12, "special") {
 					burst = 1
-					via = gen.Pick(rt, []string{"core-blank", "logger-blank", "logger-big", "logger-reused-fields", "logger-reused-fields", "switch-level"}, "via3")
+					via = gen.Pick(rt, []string{"core-blank", "logger-blank", "logger-big", "logger-reused-fields", "logger-reused-fields", "switch-level", "logger-percent", "check-then-level-up-then-write"}, "via3")
 				}
 				if via == "switch-level" {
 					// the enabler is switched at run time: from now on debug entries count (or no longer do), through
@@ -230,6 +234,24 @@ func TestSequential(t *testing.T) {
 						total++
 						bigEntries++
 						c.lg.Info(strconv.Itoa(total), zap.String("payload", strings.Repeat("p", gen.Pick(rt, []int{4096, 32768, 40000, 70000}, "biglen"))))
+					case "logger-percent":
+						// text that a formatting function would read as directives
+						total++
+						odd[total] = fmt.Sprintf("%d is 50%% done %%d %%s %%!", total)
+						c.lg.Info(odd[total], zap.String("progress", "100%"))
+					case "check-then-level-up-then-write":
+						// the two-step form of logging: the entry is accepted by Check; what happens to the level before the
+						// caller completes it with Write no longer matters
+						total++
+						ce := c.lg.Check(zapcore.InfoLevel, strconv.Itoa(total))
+						if ce == nil {
+							failf("Check refused an info entry while the level is %v", lvl.Level())
+						}
+						was := lvl.Level()
+						lvl.SetLevel(zapcore.ErrorLevel)
+						ce.Write(zap.Int("n", total))
+						lvl.SetLevel(was)
+						lateWrites++
 					case "logger-reused-fields":
 						total++
 						withReused[strconv.Itoa(total)] = true
@@ -314,6 +336,8 @@ func TestSequential(t *testing.T) {
 		add(len(cores) > 1, "derived-cores")
 		add(len(blank) > 0, "entries-without-message")
 		add(levelSwitches > 0, "level-switched-at-run-time")
+		add(len(odd) > 0, "messages-with-percent-signs")
+		add(lateWrites > 0, "level-raised-between-check-and-write")
 		add(len(withReused) > 1, "caller-owned-field-list-passed-repeatedly")
 		add(bigEntries > 0, "entries-of-4..70-KiB")
 		add(parentAndChildWrote, "parent-and-derived-both-wrote")
